@@ -5,50 +5,152 @@ package vrt
 // style waiters); a send on an unbuffered channel is possible only when a
 // receiver is parked on it, and completes by handing the value to that
 // receiver directly. A nil *Chan blocks forever, as a nil channel does.
+//
+// The generic type is only a typed handle: all mutable state lives in the
+// non-generic core, which is compiled with this package (and therefore without
+// race instrumentation; generic code is compiled into the instrumented
+// packages that instantiate it).
 type Chan[T any] struct {
-	id     uint64
-	cap    int
-	buf    []T
-	closed bool
-	recvq  []*waiter[T]
-	sendq  []*waiter[T]
-	// result slot of the select case that last received from this channel; read
-	// by the rewritten comm clause before the thread yields again
-	taken   T
-	takenOK bool
+	core *core
 }
 
-func (c *Chan[T]) Taken() T          { return c.taken }
-func (c *Chan[T]) Taken2() (T, bool) { return c.taken, c.takenOK }
+type core struct {
+	id     uint64
+	cap    int
+	buf    []any
+	closed bool
+	recvq  []*waiter
+	sendq  []*waiter
+	// result slot of the select case that last received from this channel; read
+	// by the rewritten comm clause before the thread yields again
+	taken   any
+	takenOK bool
+}
 
 type selState struct {
 	committed int // case index a peer completed for us, or -1
 }
 
-type waiter[T any] struct {
-	v    T
+type waiter struct {
+	v    any
 	ok   bool
 	done bool      // a peer completed this operation
 	sel  *selState // non-nil for select cases
 	idx  int
 }
 
-func MakeChan[T any](n int) *Chan[T] { return &Chan[T]{id: NewObj(), cap: n} }
+func cast[T any](v any) T {
+	if v == nil {
+		var zero T
+		return zero
+	}
+	return v.(T)
+}
 
-func (c *Chan[T]) oid() uint64 {
+func MakeChan[T any](n int) *Chan[T] { return &Chan[T]{core: &core{id: NewObj(), cap: n}} }
+
+func (c *Chan[T]) Taken() T          { return cast[T](c.core.takenValue()) }
+func (c *Chan[T]) Taken2() (T, bool) { v, ok := c.core.taken2(); return cast[T](v), ok }
+
+func (c *Chan[T]) Send(v T) {
+	if c == nil {
+		sendNil()
+		return
+	}
+	c.core.send(v)
+}
+
+func (c *Chan[T]) Recv2() (T, bool) {
+	if c == nil {
+		recvNil()
+		var zero T
+		return zero, false
+	}
+	v, ok := c.core.recv2()
+	return cast[T](v), ok
+}
+
+func (c *Chan[T]) Recv() T { v, _ := c.Recv2(); return v }
+
+func (c *Chan[T]) Close() {
+	if c == nil {
+		panic("close of nil channel")
+	}
+	c.core.close()
+}
+
+// TrySend is the non-yielding send used from timer context (buffered channels only).
+func (c *Chan[T]) TrySend(v T) bool { return c.core.trySend(v) }
+
+// CloseNoYield closes from timer/baton context.
+func (c *Chan[T]) CloseNoYield() { c.core.closeNoYield() }
+
+// Drain empties the buffer without yielding (Timer.Stop/Reset semantics of go1.23).
+func (c *Chan[T]) Drain() { c.core.drain() }
+
+func (c *Chan[T]) Len() int {
 	if c == nil {
 		return 0
 	}
-	return c.id
+	return c.core.len()
 }
+func (c *Chan[T]) Cap() int {
+	if c == nil {
+		return 0
+	}
+	return c.core.capacity()
+}
+
+// ChanID returns the object id of a channel (0 for nil).
+func ChanID[T any](c *Chan[T]) uint64 {
+	if c == nil {
+		return 0
+	}
+	return c.core.oid()
+}
+
+func RecvCase[T any](c *Chan[T]) Case {
+	if c == nil {
+		return nilCase()
+	}
+	return c.core.recvCase()
+}
+
+func SendCase[T any](c *Chan[T], v T) Case {
+	if c == nil {
+		return nilCase()
+	}
+	return c.core.sendCase(v)
+}
+
+// ---- non-generic core (not race-instrumented) ----
+
+func (c *core) takenValue() any     { return c.taken }
+func (c *core) taken2() (any, bool) { return c.taken, c.takenOK }
+func (c *core) capacity() int       { return c.cap }
+func (c *core) oid() uint64         { return c.id }
 
 func never() bool { return false }
 
-func (w *waiter[T]) live() bool { return !w.done && (w.sel == nil || w.sel.committed < 0) }
+func sendNil() {
+	if S == nil || S.aborting {
+		return
+	}
+	Yield(Op{Kind: "send-nil", Enabled: never})
+}
+
+func recvNil() {
+	if S == nil || S.aborting {
+		return
+	}
+	Yield(Op{Kind: "recv-nil", Enabled: never})
+}
+
+func (w *waiter) live() bool { return !w.done && (w.sel == nil || w.sel.committed < 0) }
 
 // firstRecv returns the first parked receiver that can still be served and does
 // not belong to the select `self`.
-func (c *Chan[T]) firstRecv(self *selState) *waiter[T] {
+func (c *core) firstRecv(self *selState) *waiter {
 	for _, w := range c.recvq {
 		if w.live() && (self == nil || w.sel != self) {
 			return w
@@ -57,7 +159,7 @@ func (c *Chan[T]) firstRecv(self *selState) *waiter[T] {
 	return nil
 }
 
-func (c *Chan[T]) firstSend(self *selState) *waiter[T] {
+func (c *core) firstSend(self *selState) *waiter {
 	for _, w := range c.sendq {
 		if w.live() && (self == nil || w.sel != self) {
 			return w
@@ -66,10 +168,7 @@ func (c *Chan[T]) firstSend(self *selState) *waiter[T] {
 	return nil
 }
 
-func (c *Chan[T]) canSend(self *selState) bool {
-	if c == nil {
-		return false
-	}
+func (c *core) canSend(self *selState) bool {
 	if c.closed {
 		return true // will panic, as in Go
 	}
@@ -79,14 +178,11 @@ func (c *Chan[T]) canSend(self *selState) bool {
 	return c.firstRecv(self) != nil
 }
 
-func (c *Chan[T]) canRecv(self *selState) bool {
-	if c == nil {
-		return false
-	}
+func (c *core) canRecv(self *selState) bool {
 	return len(c.buf) > 0 || c.closed || c.firstSend(self) != nil
 }
 
-func removeWaiter[T any](q []*waiter[T], w *waiter[T]) []*waiter[T] {
+func removeWaiter(q []*waiter, w *waiter) []*waiter {
 	for i, x := range q {
 		if x == w {
 			return append(q[:i:i], q[i+1:]...)
@@ -96,7 +192,7 @@ func removeWaiter[T any](q []*waiter[T], w *waiter[T]) []*waiter[T] {
 }
 
 // doSend performs a send that canSend allowed.
-func (c *Chan[T]) doSend(v T, self *selState) {
+func (c *core) doSend(v any, self *selState) {
 	if c.closed {
 		panic("send on closed channel")
 	}
@@ -106,20 +202,17 @@ func (c *Chan[T]) doSend(v T, self *selState) {
 			r.sel.committed = r.idx
 		}
 		c.recvq = removeWaiter(c.recvq, r)
-		RaceRelease(c.id)
 		return
 	}
 	c.buf = append(c.buf, v)
-	RaceRelease(c.id)
 }
 
 // doRecv performs a receive that canRecv allowed.
-func (c *Chan[T]) doRecv(self *selState) (v T, ok bool) {
+func (c *core) doRecv(self *selState) (v any, ok bool) {
 	RaceAcquire(c.id)
 	if len(c.buf) > 0 {
 		v = c.buf[0]
-		var zero T
-		c.buf[0] = zero
+		c.buf[0] = nil
 		c.buf = c.buf[1:]
 		// a sender parked on the full buffer moves its value in, as the runtime does
 		if s := c.firstSend(self); s != nil {
@@ -140,37 +233,31 @@ func (c *Chan[T]) doRecv(self *selState) (v T, ok bool) {
 		c.sendq = removeWaiter(c.sendq, s)
 		return s.v, true
 	}
-	return v, false // closed
+	return nil, false // closed
 }
 
-func (c *Chan[T]) Send(v T) {
+func (c *core) send(v any) {
 	if S == nil || S.aborting {
 		return
 	}
-	if c == nil {
-		Yield(Op{Kind: "send-nil", Enabled: never})
-		return
-	}
-	w := &waiter[T]{v: v}
+	// everything before the send statement happens before the matching receive completes;
+	// the value may be taken by the receiver while this thread is still parked
+	RaceRelease(c.id)
+	w := &waiter{v: v}
 	c.sendq = append(c.sendq, w)
 	Yield(Op{Kind: "send", Obj: c.id, Enabled: func() bool { return w.done || c.canSend(nil) }})
 	c.sendq = removeWaiter(c.sendq, w)
 	if w.done {
-		RaceRelease(c.id)
 		return
 	}
 	c.doSend(v, nil)
 }
 
-func (c *Chan[T]) Recv2() (v T, ok bool) {
+func (c *core) recv2() (any, bool) {
 	if S == nil || S.aborting {
-		return
+		return nil, false
 	}
-	if c == nil {
-		Yield(Op{Kind: "recv-nil", Enabled: never})
-		return
-	}
-	w := &waiter[T]{}
+	w := &waiter{}
 	c.recvq = append(c.recvq, w)
 	Yield(Op{Kind: "recv", Obj: c.id, Enabled: func() bool { return w.done || c.canRecv(nil) }})
 	c.recvq = removeWaiter(c.recvq, w)
@@ -181,25 +268,19 @@ func (c *Chan[T]) Recv2() (v T, ok bool) {
 	return c.doRecv(nil)
 }
 
-func (c *Chan[T]) Recv() T { v, _ := c.Recv2(); return v }
-
-func (c *Chan[T]) Close() {
+func (c *core) close() {
 	if S == nil || S.aborting {
 		return
-	}
-	if c == nil {
-		panic("close of nil channel")
 	}
 	Yield(Op{Kind: "close", Obj: c.id})
 	if c.closed {
 		panic("close of closed channel")
 	}
-	c.closed = true
 	RaceRelease(c.id)
+	c.closed = true
 }
 
-// TrySend is the non-yielding send used from timer context (buffered channels only).
-func (c *Chan[T]) TrySend(v T) bool {
+func (c *core) trySend(v any) bool {
 	if c.cap > 0 && len(c.buf) < c.cap && !c.closed {
 		c.buf = append(c.buf, v)
 		return true
@@ -207,24 +288,12 @@ func (c *Chan[T]) TrySend(v T) bool {
 	return false
 }
 
-// CloseNoYield closes from timer/baton context.
-func (c *Chan[T]) CloseNoYield() { c.closed = true; RaceRelease(c.id) }
+func (c *core) closeNoYield() { RaceRelease(c.id); c.closed = true }
+func (c *core) drain()        { c.buf = nil }
 
-// Drain empties the buffer without yielding (Timer.Stop/Reset semantics of go1.23).
-func (c *Chan[T]) Drain() { c.buf = nil }
-
-func (c *Chan[T]) Len() int {
-	if c == nil {
-		return 0
-	}
+func (c *core) len() int {
 	Yield(Op{Kind: "len", Obj: c.id})
 	return len(c.buf)
-}
-func (c *Chan[T]) Cap() int {
-	if c == nil {
-		return 0
-	}
-	return c.cap
 }
 
 // ---- select ----
@@ -239,18 +308,17 @@ type Case struct {
 	obj      uint64
 }
 
-func RecvCase[T any](c *Chan[T]) Case {
-	if c == nil {
-		return Case{ready: func(*selState) bool { return false }, register: func(*selState, int) {}, remove: func() {}, fire: func(*selState) {}, fetch: func() {}}
-	}
-	var w *waiter[T]
+func nilCase() Case {
+	return Case{ready: func(*selState) bool { return false }, register: func(*selState, int) {}, remove: func() {}, fire: func(*selState) {}, fetch: func() {}}
+}
+
+func (c *core) recvCase() Case {
+	var w *waiter
 	return Case{
 		ready: c.canRecv,
-		fire: func(self *selState) {
-			c.taken, c.takenOK = c.doRecv(self)
-		},
+		fire:  func(self *selState) { c.taken, c.takenOK = c.doRecv(self) },
 		register: func(s *selState, idx int) {
-			w = &waiter[T]{sel: s, idx: idx}
+			w = &waiter{sel: s, idx: idx}
 			c.recvq = append(c.recvq, w)
 		},
 		remove: func() { c.recvq = removeWaiter(c.recvq, w) },
@@ -262,20 +330,18 @@ func RecvCase[T any](c *Chan[T]) Case {
 	}
 }
 
-func SendCase[T any](c *Chan[T], v T) Case {
-	if c == nil {
-		return Case{ready: func(*selState) bool { return false }, register: func(*selState, int) {}, remove: func() {}, fire: func(*selState) {}, fetch: func() {}}
-	}
-	var w *waiter[T]
+func (c *core) sendCase(v any) Case {
+	var w *waiter
 	return Case{
 		ready: c.canSend,
 		fire:  func(self *selState) { c.doSend(v, self) },
 		register: func(s *selState, idx int) {
-			w = &waiter[T]{v: v, sel: s, idx: idx}
+			RaceRelease(c.id)
+			w = &waiter{v: v, sel: s, idx: idx}
 			c.sendq = append(c.sendq, w)
 		},
 		remove: func() { c.sendq = removeWaiter(c.sendq, w) },
-		fetch:  func() { RaceRelease(c.id) },
+		fetch:  func() {},
 		obj:    c.id,
 	}
 }
@@ -347,6 +413,3 @@ func Select(hasDefault bool, cases ...Case) int {
 	Fold(uint64(i))
 	return i
 }
-
-// ChanID returns the object id of a channel (0 for nil).
-func ChanID[T any](c *Chan[T]) uint64 { return c.oid() }
